@@ -131,10 +131,19 @@ pub fn record(seed: u64, tier: &str, out: &str) {
         for y in ys.iter() {
             let pc = match x.partial_cmp(y) { None => "none", Some(std::cmp::Ordering::Less) => "lt", Some(std::cmp::Ordering::Equal) => "eq", Some(_) => "gt" };
             t.ev(json!({"ev": "cmp", "op": "comparisons", "x": dec80(x), "y": dec80(y), "xt": text(x), "yt": text(y),
-                        "lt": x < y, "le": x <= y, "gt": x > y, "ge": x >= y, "pc": pc, "eq": x == y,
+                        "lt": x < y, "le": x <= y, "gt": x > y, "ge": x >= y, "pc": pc, "eq": x == y, "ne": x != y,
                         "min": dec80(&x.min(*y)), "max": dec80(&x.max(*y))}));
         }
         t.ev(json!({"ev": "abs", "op": "abs", "x": dec80(x), "r": dec80(&x.abs()), "xt": text(x)}));
+        // the very same object on both sides of the relations (x == x is the usual NaN test)
+        {
+            let r: &f80 = x;
+            let pc = match r.partial_cmp(r) { None => "none", Some(std::cmp::Ordering::Less) => "lt", Some(std::cmp::Ordering::Equal) => "eq", Some(_) => "gt" };
+            #[allow(clippy::eq_op)]
+            t.ev(json!({"ev": "cmp", "op": "comparisons", "x": dec80(r), "y": dec80(r), "xt": text(r), "yt": text(r), "same_object": true,
+                        "lt": r < r, "le": r <= r, "gt": r > r, "ge": r >= r, "pc": pc, "eq": r == r, "ne": r != r,
+                        "min": dec80(&r.min(*r)), "max": dec80(&r.max(*r))}));
+        }
     }
     // arithmetic: all pairs of the boundary set for + - * /, assigning forms, neg
     let ops = ["add", "sub", "mul", "div"];
